@@ -22,6 +22,21 @@ CHECKS = {
         note="SHA-256 (sha2 crate) is shared by implementation and reference; sizes beyond the bounds are not covered.",
         design_ref="2 C08",
     ),
+    "C09": dict(
+        category="exploration",
+        technique="bounded-exhaustive enumeration of validator sets x commit-slot assignments and of blob combinations through the real verification pipeline",
+        text=("Stage quorum: every validator set of 1..4 validators with powers from {1,2,3} (thorough {1,2,3,5}) plus "
+              "large-power boundary sets x every per-validator slot kind (valid, absent, nil, duplicate of another "
+              "validator, signature by another key / over another block, chain id, height, empty, outsider) through the "
+              "real ensure_commit_has_quorum; oracle accepted => 3 x distinct valid power > 2 x total. Stage blobs: every "
+              "combination of an honest part with <= 2 (thorough 3) adversarial metadata kinds and <= 2 (3) adversarial "
+              "rollup-data kinds, two orders, two packagings, through the real decode_raw_blobs -> verify_metadata (fake "
+              "sequencer RPC over loopback HTTP) -> reconstruct_blocks_from_verified_blobs; oracle: every reconstructed "
+              "block is the committed block of its height with exactly its data for the rollup, honest blocks are not "
+              "starved, nothing panics."),
+        note="Sequencer RPC is an in-process wiremock fake; ed25519 verification trusted; HashMap iteration order inside the pipeline is sampled per run, results compared as sets.",
+        design_ref="2 C09",
+    ),
     "C16": dict(
         category="model_checking",
         technique="explicit-state BFS over the real BundleFactory with a list reference model",
